@@ -3,6 +3,7 @@
 Engine B.  Real Consumer (commit/_auto_commit/_send_commit_request/_handle_commit_error/
 _update_*), ContractClient with a symbolic log and a coordinator offset store; a symbolic
 crash point after which a fresh consumer restarts from OFFSET_COMMITTED."""
+from twisted.internet.defer import CancelledError as TCancelledError
 from twisted.internet.defer import Deferred
 from twisted.internet.task import Clock
 from twisted.python.failure import Failure
@@ -278,8 +279,10 @@ def scenario(job):
             if w.fails > 0 and ctx.choose("proc_raises", 2) == 1:
                 w.fails -= 1
                 w.blocks.append([a, b, "failed"])
-                ctx.log("proc-raised")
-                raise RuntimeError("processor failed")
+                kind = ctx.choose("proc_error_kind", 2)
+                ctx.log("proc-raised", kind)
+                # a processor may fail with any exception, including a cancellation of its own making (e.g. its own time-out)
+                raise (RuntimeError("processor failed") if kind == 0 else TCancelledError())
             w.blocks.append([a, b, "ok"])
             return None
 
@@ -430,8 +433,9 @@ def scenario(job):
                 else:
                     w.fails -= 1
                     ent[2] = "failed"
-                    ctx.log("proc-failed")
-                    d.errback(RuntimeError("async processor failed"))
+                    kind = ctx.choose("proc_error_kind", 2)
+                    ctx.log("proc-failed", kind)
+                    d.errback(RuntimeError("async processor failed") if kind == 0 else TCancelledError())
             elif a == 3:
                 ctx.log("manual-commit")
                 r = []
